@@ -86,4 +86,10 @@ CHECKS = {
                  "lists, pointers as their target, times as the same instant, integers exact, floats bit-exact.",
          "note": TB + " Preconditions of the statement are observed by the harness (finite floats, years 1..9999, UTF-8); open findings F18 (repeated form), F20 (negative narrow flat ints), "
                  "F21 (ProtoCompatibleTime) are named deviations in the spec; recursive types have no finite descriptor (F16)."},
+ "C16": {"technique": "TLC-enumerated JSON-model trees with model round trip / skippability invariants; real codec round trips, skips and descriptor renderings judged by the trace specs",
+         "text": "TLC enumerates every JSON-model tree of depth <= 2, width <= 2 over the leaf kinds (nil, bools, ints incl. 2^62, floats, strings incl. empty, json.Number, "
+                 "nil and empty containers, empty keys) and checks on the model that decode(encode(x)) = x up to nil/empty and that the encoding is skipped exactly; each "
+                 "tree is marshalled by the real JSONMapCodec / JSONArrayCodec at top level, as a struct field between two others and as an unknown field, and "
+                 "TLC judges value, bytes (members in any order), codec laws and the descriptor-driven JSON rendering.",
+         "note": TB},
 }
